@@ -59,8 +59,30 @@ STRENGTHENED.update({
  "C15-r3m2": "missed at first (int elements only); C15 gained float64 targets with the default constructors (NaN elements are not equal to themselves and must not survive Clear)",
  "C17-r3m2": "missed at first (the reflective driver only used comparators returning -1/0/+1); it now also draws magnitude comparators (natural and reversed order, results 2..301); caught by the 60 s watchdog",
 })
+STRENGTHENED.update({
+ "C02-r4m2": "TreeMap.Map builds its result assuming monotone keys: invisible to C02's histories (no enumerable calls), a C14 clause; caught by C14",
+ "C03-r4m2": "an aliasing defect (arraylist.New adopts the caller's slice): a C16 clause; caught by C16",
+ "C03-r4m3": "missed at first (int elements only; the change tells interface element types apart with reflection and compares them with reflect.DeepEqual); caught by the type-isomorphism target: one script on List[int] and, translated, on List[any] (two distinct pointers to equal contents among the elements)",
+ "C05-r4m1": "missed at first by C05 (no failing loads in its histories; C12 caught it from the start: atomic on error); C05's histories now contain loads that fail, after which nothing dequeued earlier may come back",
+ "C05-r4m2": "missed at first by C05 (documents never longer than the ring's capacity; C12 caught it from the start); C05 now loads over-long documents into the ring (the last capacity-many values stay)",
+ "C05-r4m3": "missed at first (the change drops pushed nil interface values); caught by the type-isomorphism target (Stack[int] vs Stack[any], nil corresponds to 0)",
+ "C06-r4m2": "missed at first by C06 (loads only through FromJSON; C12 caught it from the start); every load op of C01-C10 now alternates between FromJSON, UnmarshalJSON and json.Unmarshal(doc, container)",
+ "C08-r4m2": "missed at first (heap iterators only with one-to-one comparators); heaps and priority queues now also use many-to-one orders, where the iterator must still walk exactly the Values() sequence",
+ "C08-r4m3": "missed at first (the change between the iterator's creation and its rewind was never a JSON load); the rewound-after-mutation targets now also change the container by FromJSON / UnmarshalJSON / json.Unmarshal",
+ "C08-r4m4": "missed at first by C08 (lists were built by Add and Remove only; C03 caught it from the start); the three lists may now also get several values spliced in front (Insert(0, ...))",
+ "C09-r4m2": "missed at first by C09 (loaded objects had no repeated member name; C12 caught it from the start); C09's loads now repeat member names, adjacent and apart",
+ "C09-r4m3": "missed at first (the change drops nil interface values); caught by the type-isomorphism target (Set[int] vs Set[any])",
+ "C11-r4m1": "missed at first (ToJSON was only called once, at the end of the history); the history now takes earlier snapshots through ToJSON and json.Marshal",
+ "C12-r4m3": "missed at first (int/string/float elements only); C12 gained targets with T = any, whose reference is what encoding/json decodes the document to in a fresh []any / map[string]any",
+ "C13-r4m1": "missed at first (operands always came from the constructor); operands may now be derived sets with the same members: Select of everything, identity Map, union with an empty set, reload of their own ToJSON",
+ "C16-r4m2": "missed at first (GetSortedValues only over ints); C16 gained float64 targets with NaN, the zeros and the infinities (result must be a permutation whose non-NaN elements ascend)",
+ "C17-r4m1": "NOT caught, by decision: it needs an iterator that keeps being used after a Push WITHOUT being rewound; on the unchanged tree the linked-list iterators already dereference nil in such interleavings, which DESIGN (C17, not-claimed) places outside documented use (README: unsafe to modify while iterating)",
+ "C17-r4m2": "missed at first (int/float elements only); the reflective driver gained T = any and T = a named uint8 (unsigned JSON object keys)",
+ "C17-r4m3": "missed at first (peers handed to the set algebra were always built with the receiver's comparator); one peer in seven now uses the other comparator (documented: the result is the empty set)",
+ "C18-r4m3": "missed at first (the change only writes when the element type is an interface or pointer); C18 gained concurrent and purity targets with T = any",
+})
 # seeds whose defect belongs to another property's clause: checks tried when the own check stays silent
-CROSS = {"C03-r3m3": ["C16"]}
+CROSS = {"C03-r3m3": ["C16"], "C03-r4m2": ["C16"], "C02-r4m2": ["C14"]}
 
 from concurrent.futures import ThreadPoolExecutor
 args = sys.argv[1:]
